@@ -42,7 +42,7 @@ inductive Kind
   | struct | inline                        -- ClassReference / StructureReference (`Shape.keyed`)
   | anyOf | oneOf | allOf | notF           -- multi-field wrappers (`Shape.wrap`)
   | any                                    -- Anything / untyped content / additional properties
-  | document | mapping | names | required | enumValues | default | schema   -- class-level / document-level sites
+  | document | mapping | names | required | enumValues | default | schema | fieldState   -- class-level / document-level sites
   deriving DecidableEq, Repr, Inhabited
 
 /-- what the element declaration of a collection looks like (the code branches on it) -/
@@ -78,7 +78,7 @@ def OpK.isInput : OpK → Bool
 
 /-- sites whose content has no declared type: a copy there is a generic deep copy -/
 def Kind.isLeafSite : Kind → Bool
-  | .any | .document | .mapping | .names | .required | .enumValues | .default | .schema => true
+  | .any | .document | .mapping | .names | .required | .enumValues | .default | .schema | .fieldState => true
   | _ => false
 
 /-- behaviour of the code at a node, read off a table row -/
